@@ -34,6 +34,12 @@ def apply_unified_diff(diff_text: str) -> Optional[Dict[str, str]]:
     def flush() -> bool:
         if cur is None:
             return True
+        if not os.path.exists(os.path.join(REPO, cur)):
+            # a file the patch creates: its single hunk is the whole text
+            if len(hunks) != 1 or any(ln[:1] != "+" for ln in hunks[0][1]):
+                return False
+            out[cur] = "\n".join(ln[1:] for ln in hunks[0][1]) + "\n"
+            return True
         with open(os.path.join(REPO, cur), encoding="utf-8") as fh:
             src = fh.read().split("\n")
         offset = 0
